@@ -9,6 +9,16 @@ import uuid
 sys.path.insert(0, os.path.dirname(os.path.dirname(os.path.dirname(os.path.abspath(__file__)))))
 
 
+def _set_elements(b):
+    """the element encodings of a v3+ collection body ([int32 n] n * ([int32 len][bytes])), sorted; the framing is checked on the way"""
+    n, p, out = int.from_bytes(b[:4], 'big', signed=True), 4, []
+    for _ in range(n):
+        ln = int.from_bytes(b[p:p + 4], 'big', signed=True)
+        out.append(b[p + 4:p + 4 + max(ln, 0)] if ln >= 0 else None)
+        p += 4 + max(ln, 0)
+    return (n, sorted(out, key=lambda x: (x is None, x or b'')), len(b) == p)
+
+
 def columns_vs_core(tier, seed):
     from contracts.native.c35 import _import_cqlengine
     columns, models, query, st = _import_cqlengine()
@@ -108,6 +118,10 @@ def columns_vs_core(tier, seed):
             except Exception as e:
                 fails.append('%s value %r: %r' % (type(col).__name__, v, e))
                 continue
+            if isinstance(col, columns.Set):
+                # a CQL set has no element order of its own and both sides write the elements in the iteration order of a Python set (which
+                # depends on the interpreter's string hashing): the same value means the same element encodings, in whatever order
+                via, direct = _set_elements(via), _set_elements(direct)
             if via != direct:
                 fails.append('%s value %r: cqlengine stores %r, the core driver encodes %r' % (type(col).__name__, v, via, direct))
         if len(fails) > 3:
